@@ -1,5 +1,24 @@
 ENTRY = dict(
-    runner="C05", pkg="./cmd/c05", corr=["Corr.C05Corr"], n=dict(quick=120, thorough=3000),
-    rule="placeholder",
-    trusted_base=[], assumes=[],
+    runner="C05", pkg="./cmd/c05", corr=["Corr.C05Corr"], n=dict(quick=60, thorough=3000),
+    rule="real UConns (UClient over a dummy net.Conn, BuildHandshakeState only) for every parrot whose spec carries a "
+         "padding extension (found from the specs at run time, 26 at this commit) x server-name lengths 0..255 (quick: 0,1,64,255, "
+         "the lengths putting the unpadded size at 255/256/507/508/511/512, one random; thorough: all) with the stock ALPN and "
+         "session id, plus n random (parrot, server-name length, ALPN list, session-id length) variants; custom specs of "
+         "GenericExtension bodies hitting every unpadded length 200..600 with the padding extension first/middle/last (quick: "
+         "250..262, 500..518 and every 5th); AlwaysPadToLen(n) directly around n, nil functor with hand-set state, zero-length "
+         "neighbours that make the bufio buffer exactly full, no extensions, two/three padding extensions (error); specs "
+         "fingerprinted (Fingerprinter.FingerprintClientHello, i.e. FromRaw) from the parrots' own padded output and re-applied "
+         "with the captured, a longer and a shorter server name. Every case: Hello.Raw recomputed by the model byte for byte. "
+         "Distinct by (spec, variant); non-trivial when a padding extension is emitted / the policy is active / an error is returned.",
+    trusted_base=["independent ClientHello framing parser and padding oracle in harness/cmd/c05/oracle.go",
+                  "behavioural classification of the GetPaddingLen functor (compared with reference functors on 0..1300)",
+                  "Go 1.24 bufio.Writer / bytes.Buffer semantics as transcribed in Model/Marshal.v (tied by the byte-for-byte runs, "
+                  "including the exactly-full-buffer paths)"],
+    assumes=["every TLSExtension.Read returns (n, io.EOF) on success and does not write beyond the n bytes it reports (premise of "
+             "the zero-body theorem; observed on all parrots)",
+             "PaddingLen is non-negative; len(hello.Random) = 32 (ApplyPreset enforces it)",
+             "extensions other than padding emit bytes that do not depend on the buffer contents (premise aext_ok)"],
+    level_text="Proof over all header sizes, extension lists and lengths of the generic marshal model (length, framing, padding "
+               "decision at every unpadded length incl. 508..511, zero body out of the zeroed buffer, duplicate => error, FromRaw "
+               "length reproduction); the model is tied to MarshalClientHelloNoECH + bufio by byte-for-byte correspondence.",
 )
